@@ -280,9 +280,18 @@ def check_write(rep, db, which):
                 need(pc, f'{which}:frame-size', 'a DATA frame is emitted empty or larger than write_frame_size', z3.And(fb.len.e >= 1, fb.len.e <= cap.e))
                 need(pc, f'{which}:foreign-header', 'a DATA frame is sent under another stream\'s id / kind (it would be delivered to a different sub-stream)', header_ok(fr, 'data', kind_bit, sid))
                 total_in_frames = total_in_frames + fb.len.e
-        if r == 'pending' or r.variant != 0: continue
-        good += 1; rep.nontrivial += 1
+        if r == 'pending': continue
         pb = deref_all(post_buf)
+        # conservation on EVERY outcome, failed or cancelled operations included: the stream stays usable after a cancelled write
+        # (the writer is handed on to the CLOSE of this stream and to the next transient stream), so bytes accepted earlier must
+        # still be either in a frame that was handed to the transport task or in the write buffer — never dropped on the floor
+        taken = z3.IntVal(0)
+        for e in log:
+            if e[0] == 'push': taken = taken + e[3].e
+        need(pc, f'{which}:lost-on-failure', 'after a failed or cancelled operation the bytes accepted so far are neither in an emitted DATA frame nor in the write buffer (a hole in the stream: the writer stays in use)',
+             total_in_frames + pb.len.e == fill.e + taken)
+        if r.variant != 0: continue
+        good += 1; rep.nontrivial += 1
         if which == 'write_all':
             pushes = [e for e in log if e[0] == 'push']
             off = z3.IntVal(0)
